@@ -2256,8 +2256,16 @@ fn build_local_variable(xs: &mut State, name: Xsubstr) -> Xresult {
     let ff = xs
         .top_function_flow()
         .ok_or_else(|| Xerr::expect_fn_context())?;
-    let idx = ff.locals.len();
-    ff.locals.push(name);
+    // a name has one slot: declared again (in the other branch of an `if`, say) it is
+    // bound again, so that a later use finds it whichever declaration ran
+    let idx = match ff.locals.iter().position(|x| x == name.as_str()) {
+        Some(idx) => idx,
+        None => {
+            let idx = ff.locals.len();
+            ff.locals.push(name);
+            idx
+        }
+    };
     xs.code_emit(Opcode::InitLocal(idx))
 }
 
